@@ -4,8 +4,10 @@ C16 -- VCF genotypes are turned into matching evidence for every variant kind.
 Decided: (R1) every loader that can emit an insertion observation also accounts for it in the
 indel-support table that the Coverage consumer gives precedence to; (R2) the `None` operation of an
 ignored record never reaches a table key or a method call; (R3) the genotype-arity / unmapped-base
-skip condition; (R4) pseudo-read bookkeeping constants, placement and allele indexing; (R5) VCF
-input fixes the structure to two default copies.  Not decided: end-to-end genotyping of a VCF.
+skip condition; (R5) VCF input fixes the structure to two default copies; (R6/R7) the loader folded
+whole on record kinds (support per copy, reference reduction at the variant's own position, allele
+indexing, 0-based positions, re-expression against the gene reference) -- this replaced the former
+syntactic constants rule R4.  Not decided: end-to-end genotyping of a VCF.
 """
 
 import ast
@@ -23,9 +25,9 @@ EXPLANATION = (
     "insertion observations whenever the indel table is non-empty): emits-insertion => fills-indel-table (R1). "
     "Dataflow of the Optional operation returned by the VCF record converter to every sink, which must be "
     "unreachable under op=None by CFG guard facts folded with that binding (R2). The skip condition of the record "
-    "loop folded over genotype lengths 0..4 and the unmapped-base flag (R3). Extracted constants of the pseudo-read "
-    "scheme: baseline = 2 x per-copy support = 2 x per-copy reference reduction, same block, same position, "
-    "allele index i reads entry i with the reference entry first, every record position used as pos-1 (R4). "
+    "loop folded over genotype lengths 0..4 and the unmapped-base flag (R3). The pseudo-read scheme (baseline = 2 x "
+    "per-copy support = 2 x per-copy reference reduction at the variant's own position, allele index i reads entry i, "
+    "0-based positions) is decided by folding the loader whole on record kinds (R6, thorough R7). "
     "VCF/pscan route builds the profile with the literal two-copy structure (R5)."
 )
 ASSUMPTIONS = [
@@ -313,82 +315,6 @@ def _int_const(node):
         return None
 
 
-def r4(repo, res):
-    f = repo.func("sam::Sample._load_vcf")
-    loop = _record_loop(f)
-    # baseline: norm = {p: [obs] * B for p in range(...)}
-    base = None
-    for n in walk_local(f):
-        if isinstance(n, ast.Assign) and isinstance(n.value, ast.DictComp) and isinstance(n.value.value, ast.BinOp) \
-                and isinstance(n.value.value.op, ast.Mult):
-            base = (n, _int_const(n.value.value.right), n.targets[0].id if isinstance(n.targets[0], ast.Name) else None)
-    if not base or base[1] is None:
-        res.err("C16.R4", "baseline reference observations (dict comprehension of [obs] * B) not found")
-        return
-    B, norm_name = base[1], base[2]
-    inner = [n for n in walk_local(loop) if isinstance(n, ast.For) and n is not loop and isinstance(n.iter, ast.Name)
-             and isinstance(n.target, ast.Name)
-             and any(isinstance(s, ast.Subscript) and isinstance(s.slice, ast.Name) and s.slice.id == n.target.id
-                     for s in ast.walk(n))]
-    if not inner:
-        res.err("C16.R4", "per-genotype loop not found")
-        return
-    gl = inner[0]
-    add = sub = None
-    for st in gl.body:
-        if isinstance(st, ast.AugAssign) and isinstance(st.op, ast.Add) and isinstance(st.target, ast.Subscript) \
-                and isinstance(st.value, ast.BinOp) and isinstance(st.value.op, ast.Mult):
-            add = (st, _int_const(st.value.right))
-        if isinstance(st, ast.Assign) and isinstance(st.targets[0], ast.Subscript) and isinstance(st.value, ast.Subscript) \
-                and isinstance(st.value.slice, ast.Slice) and ast.unparse(st.targets[0]) == ast.unparse(st.value.value):
-            up = st.value.slice.upper
-            k = _int_const(up) if up is not None else None
-            if st.value.slice.lower is None and k is not None and k < 0:
-                sub = (st, -k)
-    ok = bool(add and sub and add[1] and sub[1] and add[1] == sub[1] and 2 * add[1] == B)
-    res.ob("C16.R4", f, gl, ok,
-           expected="per alternate copy: +k observations under the variant key and -k reference observations at the same "
-                    "position, in the same block, with baseline = 2k",
-           found=f"baseline={B}, support per copy={add[1] if add else None}, reference reduction per copy={sub[1] if sub else None}",
-           clause="support proportional to the number of alternate copies and reference support reduced accordingly",
-           key="pseudo-read-balance")
-    if add and sub:
-        key = add[0].target.slice
-        pos_a = ast.unparse(key.elts[0]) if isinstance(key, ast.Tuple) else None
-        pos_s = ast.unparse(sub[0].targets[0].slice)
-        tbl_s = ast.unparse(sub[0].targets[0].value)
-        res.ob("C16.R4", f, sub[0], pos_a == pos_s and tbl_s == norm_name,
-               expected="reference reduction uses the variant's own position in the baseline table",
-               found=f"variant key position {pos_a}; reduction at {tbl_s}[{pos_s}]", key="same-position")
-    # allele indexing: list starts with one reference entry, then alleles[1:]
-    lst = None
-    for s in ast.walk(gl):
-        if isinstance(s, ast.Subscript) and isinstance(s.slice, ast.Name) and s.slice.id == gl.target.id \
-                and isinstance(s.value, ast.Name):
-            lst = s.value.id
-    inits = [n for n in walk_local(loop) if isinstance(n, ast.Assign) and isinstance(n.targets[0], ast.Name)
-             and n.targets[0].id == lst]
-    exts = [n for n in walk_local(loop) if isinstance(n, ast.AugAssign) and isinstance(n.target, ast.Name)
-            and n.target.id == lst]
-    ok_init = bool(inits) and all(isinstance(n.value, ast.List) and len(n.value.elts) == 1 for n in inits)
-    ok_ext = len(exts) == 1 and isinstance(exts[0].value, ast.ListComp) and \
-        ast.unparse(exts[0].value.generators[0].iter).endswith(".alleles[1:]")
-    res.ob("C16.R4", f, exts[0] if exts else gl, ok_init and ok_ext,
-           expected="entry 0 = reference entry (single element), entries 1.. = one per ALT allele in order (alleles[1:])",
-           found=f"init {[ast.unparse(n.value)[:50] for n in inits]}; extension {ast.unparse(exts[0].value)[:80] if exts else None}",
-           clause="allele index i of GT reads entry i", key="allele-index")
-    # every use of the record's position is pos - 1
-    rec = loop.target.id if isinstance(loop.target, ast.Name) else None
-    uses = [n for n in walk_local(loop) if isinstance(n, ast.Attribute) and n.attr == "pos"
-            and isinstance(n.value, ast.Name) and n.value.id == rec]
-    bad = [u for u in uses if not (isinstance(u._parent, ast.BinOp) and isinstance(u._parent.op, ast.Sub)
-                                   and u._parent.left is u and _int_const(u._parent.right) == 1)]
-    res.floor("C16.R4", "uses of the record position", len(uses), 4)
-    res.ob("C16.R4", f, bad[0] if bad else loop, not bad,
-           expected="every use of the 1-based record position is `pos - 1`",
-           found="ok" if not bad else f"{len(bad)} use(s) without -1", key="pos-minus-one")
-
-
 def r5(repo, res):
     """VCF / probe-table input: genotype() folded whole -- the structure stage is given the fixed two-copy structure, whatever
     the caller asked for, and the sample is loaded with that profile."""
@@ -429,7 +355,7 @@ class RefGene:
         return REF_SEQ[i - 100] if 100 <= i < 100 + len(REF_SEQ) else "N"
 
     def get_wide_region(self):
-        return Obj(start=100, end=112, samtools=lambda prefix="", **k: "r")
+        return Obj(chr="22", start=100, end=112, samtools=lambda prefix="", **k: "r")
 
 
 def vcf_record(pos0, ref, alts, gt):
@@ -662,7 +588,6 @@ def run(repo, res):
     r1(repo, res)
     r2(repo, res)
     r3(repo, res)
-    r4(repo, res)
     r5(repo, res)
 
 
@@ -687,12 +612,12 @@ MUTANTS = [
     dict(name="R3 missing alleles kept", module="sam", expect="C16.R3",
          old='g = sorted(y for y in read.samples[sample]["GT"] if y is not None)',
          new='g = sorted(y or 0 for y in read.samples[sample]["GT"])'),
-    dict(name="R4 reference not reduced", module="sam", expect="C16.R4",
+    dict(name="R4 reference not reduced", module="sam", expect=["C16.R6", "C16.R7"],
          old="                    norm[pos] = norm[pos][:-10]\n                    dump_arr[pos] = op",
          new="                    dump_arr[pos] = op"),
-    dict(name="R4 reduces 5 per copy", module="sam", expect="C16.R4",
+    dict(name="R4 reduces 5 per copy", module="sam", expect=["C16.R6", "C16.R7"],
          old="                    norm[pos] = norm[pos][:-10]\n                    dump_arr", new="                    norm[pos] = norm[pos][:-5]\n                    dump_arr"),
-    dict(name="R4 baseline 10", module="sam", expect="C16.R4",
+    dict(name="R4 baseline 10", module="sam", expect=["C16.R6", "C16.R7"],
          old="""        norm = {
             p: [(40, 40)] * 20
             for p in range(
@@ -712,9 +637,10 @@ MUTANTS = [
         muts: dict = defaultdict(list)
 
         def get_mut"""),
-    dict(name="R4 ALT index shifted", module="sam", expect="C16.R4",
+    dict(name="R4 ALT index shifted", module="sam", expect=["C16.R6", "C16.R7"],
          old="for a in read.alleles[1:]]", new="for a in read.alleles]"),
-    dict(name="R4 one-based position used", module="sam", expect="C16.R4",
+    # equivalent: the position of the reference entry is never read (the entry is skipped)
+    dict(name="benign: position of the reference entry", module="sam", kind="benign",
          old="hgvs = [(read.pos - 1, \"_\")]", new="hgvs = [(read.pos, \"_\")]"),
     dict(name="R5 VCF route takes user structure", module="genotype", expect="C16.R5",
          old='profile = Profile("user_provided", cn_solution=["1", "1"], **params)',
